@@ -6,7 +6,7 @@ import os
 VERIF = os.path.dirname(os.path.dirname(os.path.abspath(__file__)))
 
 CLAIMED = {
-    "C01": ("Lean theorems wf_ranges / pixel_fidelity / prefix_lengths / sample_sizes (all geometries, all positive rpc) over hand models of io.py+array.py, tied by translator (layouts, 720, tables) and seeded correspondence; end-to-end oracle on 4 filesystems",
+    "C01": ("Lean theorems record_addresses (every parse of a line-record layout regenerated from the source: record_start = pos, data.start = pos + 192/544, data.stop = pos + record_length) / layout_ranges (the chunk loop of read_metadata through the layout interpreter gives [720+iL+P, 720+(i+1)L) for every records_per_chunk) / wf_ranges / pixel_fidelity / prefix_lengths / sample_sizes (all geometries, all positive rpc) over hand models of io.py+array.py, tied by translator (layouts, 720, tables) and seeded correspondence; end-to-end oracle on 4 filesystems",
             "numpy's byte reinterpretation and fsspec I/O are contracts (tested); model tied by differential testing", "7 C01"),
     "C02": ("Lean theorem getitem_eq_np: model of Array.__getitem__ = NumPy basic indexing of the loaded image for every image, rpc and basic key; BASIC support re-read from source; correspondence over the full slice cube; isel/vectorised oracle vs in-memory twin",
             "xarray's indexer decomposition is third-party (tested end-to-end; two xarray-internal failures are recorded as known findings)", "7 C02"),
@@ -24,13 +24,13 @@ CLAIMED = {
             "that an interrupted write leaves a prefix is OS behaviour (sampled); json.loads rejecting unbalanced text is a contract (tested on every prefix)", "7 C09"),
     "C10": ("Lean theorem history_independent: for every operation sequence (induction, no length bound) every open returns the uncached group of its own rpc; inv_step; writes; real-file histories vs the flow model and vs fresh uncached opens, directory hashes, option-dict deep copies",
             "caller-dict aliasing is only observed by the harness", "7 C10"),
-    "C03": ("Lean theorems line_metadata_11/15 (for ANY number n>=1 of line records, every file content: the image group is the frozen documented group, induction over n), header_attrs (present exactly when non-blank, all 32 combinations), field_positions (golden offsets/widths/scale factors/units), line_times; layout + transformer correspondence; field-by-field end-to-end oracle",
+    "C03": ("Lean theorems image_group / image_array (the image group as open_image builds it - descriptor, chunked line records, rebased offsets, transform_metadata - is the documented group for every file content and every records_per_chunk), line_metadata_11/15 (for ANY number n>=1 of line records, every file content: the image group is the frozen documented group, induction over n), header_attrs (present exactly when non-blank, all 32 combinations), field_positions (golden offsets/widths/scale factors/units), line_times; layout + transformer correspondence; field-by-field end-to-end oracle",
             "numpy dtype inference / datetime64 override and IEEE scaling are third-party (scaling checked exactly by the harness)", "7 C03"),
     "C04": ("Lean theorem metadata: for EVERY leader file that parses, transform_metadata (record selection, the seven record pipelines, renames, attitude time fix-up) yields the frozen documented /metadata tree evaluated on the parsed record (any number of map-projection records, any attitude/facility lengths, any number n>=1 of attitude points and 1..16 channels); per-record theorems dataset_summary / radiometric_data / transformations / platform_position / map_projection (per designator class) / attitude (all n) / data_quality_summary; field_positions (golden offsets/widths/conversions of the fixed-size records), framing, numeric_text; layouts, pipeline configuration and step order regenerated from source; transformer correspondence (11 pipelines incl. whole leaders); field-by-field end-to-end oracle",
             "float()/IEEE scaling, strptime/timedelta of the first-point time and numpy timedelta arithmetic are contracts (evaluated exactly by the harness)", "7 C04"),
     "C12": ("Lean theorems documented_trees_well_typed / image_group_well_typed (any n) / metadata_well_typed + leader_trees_well_typed (the whole documented /metadata tree, any counts and designator class) / typing_is_shape_only, declared_shape (from pixel_fidelity), real_dtypes (re-read from source); oracle over dtype/shape/nbytes/repr/attribute types/selection shapes",
             "numpy's dtype inference of python lists is third-party", "7 C12"),
-    "C13": ("Lean theorems imagery_children (no image dropped or swapped when names are distinct), name_collision, group_names_injective, roles_independent_of_line_order (permutation invariance), metadata_children (for every leader file: /metadata has exactly the record groups present in the leader, map_projection iff the file holds such a record), root_children; oracle over 1-8 images x polarisation x scan x summary line order, uncached and through a freshly created cache: node paths and order, per-group pixel identity with the right file, attributes",
+    "C13": ("Lean theorems imagery_children (no image dropped or swapped when names are distinct), name_collision, group_names_injective, roles_independent_of_line_order (permutation invariance), metadata_children (for every leader file: /metadata has exactly the record groups present in the leader, map_projection iff the file holds such a record), product_tree (model of the whole io.open: every successful open is assembled from exactly the documented pieces - summary, root attributes, /metadata, one image group per image file in summary order), root_children; whole-product correspondence (intact and damaged products) against the real io.open; oracle over 1-8 images x polarisation x scan x summary line order, uncached and through a freshly created cache: node paths and order, per-group pixel identity with the right file, attributes",
             "DataTree.from_dict / set_coords are xarray's", "7 C13"),
     "C14": ("Lean theorems line_sound / line_complete (exact line grammar incl. lazy matching, values with = and quotes), errors_exact, crlf, perm_invariant on the regex regenerated from CPython's own AST; summary correspondence; whole-product oracle with permuted/CRLF/corrupted summaries",
             "the backtracking matcher model is tied to CPython's re by correspondence", "7 C14"),
@@ -44,7 +44,7 @@ CLAIMED = {
             "real schedules / GIL / lock implementation only enumerated at filesystem yield points", "7 C19"),
     "C20": ("Lean theorems blank_int/float/text, no_derived_attribute, padding_inert + padding_inert_leader_records (dataset summary, radiometric, facility-5, platform-position, map-projection records: records agreeing on live-field bytes give equal output), live_fields_only(2), field_locality (13 fixed-size layouts); oracle: nullable fields blanked individually and in subsets, padding rewritten with random content",
             "line records, the attitude / data-quality records and the volume directory: padding inertness by oracle only", "7 C20"),
-    "C18": ("Lean theorem truncated_image (for arbitrary bytes: short file => error or fewer than n records) and complete_image; truncation/missing-file oracle over every record boundary +-1 x rpc",
+    "C18": ("Lean theorems truncated_image (for arbitrary bytes: short file => error or fewer than n records), complete_image, missing_summary; whole-product correspondence on damaged products (error classes of truncated / removed / corrupted files); truncation/missing-file oracle over every record boundary +-1 x rpc",
             "xarray.Dataset's dimension check and promptness are not proved (measured)", "7 C18"),
 }
 
